@@ -162,7 +162,7 @@ class Check(BaseCheck):
         g8 = C08.Gen(rnd)
         g10 = C10.Gen(rnd)
         fixed = ['1+2*3', 'SUM(1,2,{3,4})', '"a"&"b"', 'IF(xa>2,"big","small")', 'A1+B2', 'MAX(A1:B2)', '1/0', 'nosuch', 'NOSUCH(1)', '1+', 'ROMAN(1999)', 'DATE(2020,1,1)+5',
-                 'COUNTIF({"ab","cd"},"ab")', '-xa', 'BOOM(1)', 'SYN(1)+1', 'INNER(2)*3', '{1,2;3,4}', '#REF!', '"abc', '2^3+50%', 'foo', 'foo*2', 'CF(lst)', 'SUM(lst)', 'TWICE(foo)',
+                 'COUNTIF({"ab","cd"},"ab")', '-xa', 'BOOM(1)', 'SYN(1)+1', 'INNER(2)*3', 'INNER(2)+foo+A1', 'INNER(1)&txt&Z9', 'INNER(2)+CF(1)+SUM(A1:B2)', '{1,2;3,4}', '#REF!', '"abc', '2^3+50%', 'foo', 'foo*2', 'CF(lst)', 'SUM(lst)', 'TWICE(foo)',
                  'ERRR(1)', 'IFERROR(ERRR(1),7)', 'SUM(tup)', 'tup', 'CF(tup)', 'SUM(tup_rows)', 'MAX(tup_one)', 'COUNT(empty_tup)', 'INDEX(tup,2)', 'xa+SUM(tup)', 'TEXTJOIN(",",TRUE,txt,"c")', 'INDEX(lst,2)', 'LARGE({3,1,2},1)', 'MATCH(2,{1,2,3},0)', 'EDATE(DATE(2020,1,31),1)', 'Z9',
                  # probes that fail through every kind of python exception inside the evaluation
                  'COT(0)', 'LOG(8,1)', 'ACOTH(1)', 'POWER(0,-1)', 'SQRT(-1)', 'CHOOSE(1.5,1,2)', '-"a"', 'LEFT("abc","x")', 'FACT("z")', 'DATE(2020,13,45)', 'CHAR(-1)', 'CODE("")',
@@ -602,6 +602,28 @@ class Check(BaseCheck):
             hist.append(('host-data-change', dict(b.state)))
             for f in ('A1*2', 'A1+B2', 'SUM(A1:B2)', 'Z9', 'MAX(A1:B2)+A1'):
                 self.compare(rec, aged, b, f, False, hist)
+        # the bindings that answer are those registered on THIS parser, also for the lookups that follow a callback which itself
+        # evaluated something on another parser with other bindings (a multi-sheet host): judged against the values, not against a twin
+        hx_ = env.load()
+        for debug in (False, True):
+            one, two = hx_.Parser(debug=debug), hx_.Parser(debug=debug)
+            one.set_variable('rate', 5)
+            two.set_variable('rate', 100)
+            one.on('callCellValue', lambda c, s: s(1))
+            two.on('callCellValue', lambda c, s: s(1000))
+            one.set_function('LOCAL', lambda x: x + 1)
+            two.set_function('LOCAL', lambda x: x + 1000)
+            one.set_function('SHEET2', lambda: two.parse('rate+A1+LOCAL(0)')['result'])
+            one.on('callVariable', lambda n, s: two.parse('rate') if n == 'rate' else None)
+            for f, exp in (('SHEET2()+rate', 2105), ('SHEET2()+A1', 2101), ('SHEET2()+LOCAL(1)', 2102), ('SHEET2()&rate&A1', '210051'), ('rate+SHEET2()+rate+A1+LOCAL(0)', 2112),
+                           ('SUM(SHEET2(),rate,A1:B2)', 2105), ('IF(SHEET2()>0,rate,0)', 5)):
+                r = one.parse(f)
+                rec.case()
+                rec.nt(('other-parser-inside-callback', f, debug))
+                if f.startswith('SUM('):
+                    continue        # no range listener on `one`: only that it does not crash
+                if r != {'result': exp, 'error': None}:
+                    rec.violation('C02/lookup-after-nested-evaluation-on-another-parser-answered-by-other-bindings', formula=f, record=r, expected=exp, debug=debug)
         b.functions['CF'] = ('const', 99)
         aged.parse('CF(1)')
         aged.set_function('CF', make_function(('const', 99)))
